@@ -1,6 +1,6 @@
 (* Proofs about model/Replication.v (C09). *)
-From Coq Require Import List NArith Bool Lia.
-From V Require Import model.Replication.
+From Coq Require Import List NArith Bool Lia Arith Permutation Sorted.
+From V Require Import gen.Consts model.Replication.
 Import ListNotations.
 Open Scope N_scope.
 
@@ -95,12 +95,54 @@ Proof.
 Qed.
 
 (* ---------------------------------------------------------------- received lists *)
-Lemma far_holder_ignored n h keys :
-  mem h (closest n) = false \/ h = self n -> on_replicate n h keys = (n, []).
+Lemma far_holder_ignored D n h keys :
+  mem h (closest n) = false \/ h = self n -> on_replicate D n h keys = (n, []).
 Proof.
   intros Hc. unfold on_replicate, accepts_holder.
   destruct Hc as [Hc| ->]; [rewrite Hc; reflexivity|].
   rewrite N.eqb_refl, andb_false_r. reflexivity.
+Qed.
+
+Lemma ranged_sub D n keys x : In x (ranged D n keys) -> In x keys.
+Proof.
+  unfold ranged. destruct (Nat.eqb (length (unheld n keys)) 1); [auto|].
+  intros Hin. apply filter_In in Hin. tauto.
+Qed.
+
+Lemma ranged_keeps D n keys x : In x keys -> in_range D n (fst x) = true -> In x (ranged D n keys).
+Proof.
+  intros Hin Hr. unfold ranged. destruct (Nat.eqb (length (unheld n keys)) 1); [exact Hin|].
+  apply filter_In. split; assumption.
+Qed.
+
+Lemma ranged_in_range D n keys x :
+  length (unheld n keys) <> 1%nat -> In x (ranged D n keys) -> in_range D n (fst x) = true.
+Proof.
+  intros Hl. unfold ranged. destruct (Nat.eqb_spec (length (unheld n keys)) 1) as [E|_]; [contradiction|].
+  intros Hin. apply filter_In in Hin. tauto.
+Qed.
+
+Lemma nodup_map_filter {A} (p : A * rtype -> bool) (l : list (A * rtype)) :
+  NoDup (map fst l) -> NoDup (map fst (filter p l)).
+Proof.
+  induction l as [|x r IH]; cbn; intros Hnd; [constructor|].
+  inversion Hnd as [|a b Hnotin Hnd']; subst.
+  destruct (p x); cbn; [|apply IH; exact Hnd'].
+  constructor; [|apply IH; exact Hnd'].
+  intros Hin. apply Hnotin. apply in_map_iff in Hin as [y [Ey Hy]].
+  apply filter_In in Hy. rewrite <- Ey. apply in_map. tauto.
+Qed.
+
+Lemma ranged_nodup D n keys : NoDup (map fst keys) -> NoDup (map fst (ranged D n keys)).
+Proof.
+  intros Hnd. unfold ranged. destruct (Nat.eqb (length (unheld n keys)) 1); [exact Hnd|].
+  apply nodup_map_filter. exact Hnd.
+Qed.
+
+Lemma ranged_no_range D n keys : fetch_range n = None -> ranged D n keys = keys.
+Proof.
+  intros Hr. unfold ranged. destruct (Nat.eqb (length (unheld n keys)) 1); [reflexivity|].
+  unfold in_range. rewrite Hr. induction keys as [|x r IH]; cbn; [reflexivity|]. rewrite IH. reflexivity.
 Qed.
 
 Lemma wanted_sub n : forall keys seen x, In x (wanted n seen keys) ->
@@ -118,17 +160,18 @@ Proof.
         split; [exact B|]. split; [exact C|]. cbn in D. apply orb_false_iff in D. tauto.
 Qed.
 
-Lemma on_replicate_spec n h keys n' out :
-  on_replicate n h keys = (n', out) ->
-  held n' = held n /\ self n' = self n /\ closest n' = closest n /\ cands n' = cands n /\
+Lemma on_replicate_spec D n h keys n' out :
+  on_replicate D n h keys = (n', out) ->
+  held n' = held n /\ self n' = self n /\ table n' = table n /\ cands n' = cands n /\
+  store_range n' = store_range n /\ fetch_range n' = fetch_range n /\
   forall m, In m out -> exists x, m = Fetch (self n) h (fst x) /\ In x keys /\
                                   lookup (fst x) (held n) = None /\ kt_mem x (inflight n) = false.
 Proof.
   unfold on_replicate. destruct (accepts_holder n h).
   - intros E; inversion E; subst; clear E. cbn. repeat split; try reflexivity.
     intros m Hin. apply in_map_iff in Hin as [x [Em Hx]].
-    destruct (wanted_sub n keys [] x Hx) as (A & B & C & _).
-    exists x. repeat split; auto.
+    destruct (wanted_sub n (ranged D n keys) [] x Hx) as (A & B & C & _).
+    exists x. repeat split; auto. apply (ranged_sub D n). exact A.
   - intros E; inversion E; subst. repeat split; try reflexivity. intros m [].
 Qed.
 
@@ -170,7 +213,11 @@ Qed.
 Lemma accept_held n k c :
   held (accept n k c) =
   match merge_in (lookup k (held n)) c with Some c' => update k c' (held n) | None => held n end.
-Proof. unfold accept. destruct (merge_in (lookup k (held n)) c); reflexivity. Qed.
+Proof.
+  unfold accept, sync_range.
+  destruct (merge_in (lookup k (held n)) c), (puts (lookup k (held n)) c); cbn;
+    try destruct (store_range n); reflexivity.
+Qed.
 
 Lemma accept_other n k c k' : k' <> k -> lookup k' (held (accept n k c)) = lookup k' (held n).
 Proof.
@@ -179,7 +226,18 @@ Proof.
 Qed.
 
 Lemma accept_self n k c : self (accept n k c) = self n.
-Proof. unfold accept. destruct (merge_in (lookup k (held n)) c); reflexivity. Qed.
+Proof.
+  unfold accept, sync_range.
+  destruct (merge_in (lookup k (held n)) c), (puts (lookup k (held n)) c); cbn;
+    try destruct (store_range n); reflexivity.
+Qed.
+
+(* no PutLocalRecord: nothing at all changes *)
+Lemma accept_no_put n k c : puts (lookup k (held n)) c = false -> accept n k c = n.
+Proof.
+  intros Hp. unfold accept. rewrite Hp. unfold puts in Hp.
+  destruct (merge_in (lookup k (held n)) c); [discriminate|reflexivity].
+Qed.
 
 Lemma accept_absent n k c : lookup k (held n) = None -> content_valid c = true ->
   lookup k (held (accept n k c)) = Some c.
@@ -252,13 +310,16 @@ Lemma pad_lower_ignored n k o c1 d1 v1 o2 c2 d2 v2 :
   lookup k (held n) = Some (CPad o c1 d1 v1) -> c2 <= c1 ->
   accept n k (CPad o2 c2 d2 v2) = n.
 Proof.
-  intros Hl Hle. unfold accept. rewrite Hl. unfold merge_in. cbn.
+  intros Hl Hle. apply accept_no_put. rewrite Hl. unfold puts, merge_in. cbn.
   destruct v2; cbn; [|reflexivity].
   destruct (N.ltb_spec c1 c2); [lia|reflexivity].
 Qed.
 
 Lemma pad_invalid_ignored n k o c d : accept n k (CPad o c d false) = n.
-Proof. unfold accept, merge_in. cbn. reflexivity. Qed.
+Proof.
+  apply accept_no_put. unfold puts, merge_in. cbn.
+  destruct (lookup k (held n)) as [[]|]; reflexivity.
+Qed.
 
 (* ---------------------------------------------------------------- one exchange a -> b *)
 Definition fetch_fold (a : node) (acc : node) (m : msg) : node :=
@@ -267,10 +328,10 @@ Definition fetch_fold (a : node) (acc : node) (m : msg) : node :=
   | _ => acc
   end.
 
-Lemma sync_from_unfold H a b :
-  sync_from H a b =
-  fold_left (fetch_fold a) (snd (on_replicate b (self a) (advert H a))) (fst (on_replicate b (self a) (advert H a))).
-Proof. unfold sync_from. destruct (on_replicate b (self a) (advert H a)); reflexivity. Qed.
+Lemma sync_from_unfold H D a b :
+  sync_from H D a b =
+  fold_left (fetch_fold a) (snd (on_replicate D b (self a) (advert H a))) (fst (on_replicate D b (self a) (advert H a))).
+Proof. unfold sync_from. destruct (on_replicate D b (self a) (advert H a)); reflexivity. Qed.
 
 Lemma fold_fetch_other a : forall (ws : list (key * rtype)) (h : peer) (p : peer) acc k,
   ~ In k (map fst ws) ->
@@ -299,41 +360,59 @@ Proof.
     rewrite accept_other; assumption.
 Qed.
 
-Lemma sync_gets_missing H a b k c :
+(* a missing valid record within the receiver's fetch range is brought over by one exchange *)
+Lemma sync_gets_missing H D a b k c :
   NoDup (map fst (held a)) -> accepts_holder b (self a) = true -> inflight b = [] ->
   lookup k (held a) = Some c -> content_valid c = true -> lookup k (held b) = None ->
-  lookup k (held (sync_from H a b)) = Some c.
+  in_range D b k = true ->
+  lookup k (held (sync_from H D a b)) = Some c.
 Proof.
-  intros Hnd Hacc Hif Ha Hv Hb. rewrite sync_from_unfold. unfold on_replicate. rewrite Hacc. cbn [fst snd].
+  intros Hnd Hacc Hif Ha Hv Hb Hr. rewrite sync_from_unfold. unfold on_replicate. rewrite Hacc. cbn [fst snd].
   apply fold_fetch_gets; auto.
-  - apply wanted_nodup. rewrite advert_keys. exact Hnd.
-  - apply (in_map fst (wanted b [] (advert H a)) (k, type_of H c)).
+  - apply wanted_nodup. apply ranged_nodup. rewrite advert_keys. exact Hnd.
+  - apply (in_map fst (wanted b [] (ranged D b (advert H a))) (k, type_of H c)).
     apply wanted_complete; auto.
-    + rewrite advert_keys. exact Hnd.
-    + apply advert_complete. exact Ha.
+    + apply ranged_nodup. rewrite advert_keys. exact Hnd.
+    + apply ranged_keeps; [apply advert_complete; exact Ha|exact Hr].
     + rewrite Hif. reflexivity.
 Qed.
 
-Lemma sync_keeps_held H a b k c :
-  lookup k (held b) = Some c -> lookup k (held (sync_from H a b)) = Some c.
+Lemma sync_keeps_held H D a b k c :
+  lookup k (held b) = Some c -> lookup k (held (sync_from H D a b)) = Some c.
 Proof.
   intros Hb. rewrite sync_from_unfold. unfold on_replicate.
   destruct (accepts_holder b (self a)); cbn [fst snd]; [|exact Hb].
   rewrite fold_fetch_other; [exact Hb|].
   intros Hin. apply in_map_iff in Hin as [x [Ex Hx]].
-  destruct (wanted_sub b (advert H a) [] x Hx) as (_ & B & _). rewrite Ex in B. congruence.
+  destruct (wanted_sub b (ranged D b (advert H a)) [] x Hx) as (_ & B & _). rewrite Ex in B. congruence.
 Qed.
 
-Lemma sync_absent H a b k :
-  lookup k (held a) = None -> lookup k (held b) = None -> lookup k (held (sync_from H a b)) = None.
+Lemma sync_absent H D a b k :
+  lookup k (held a) = None -> lookup k (held b) = None -> lookup k (held (sync_from H D a b)) = None.
 Proof.
   intros Ha Hb. rewrite sync_from_unfold. unfold on_replicate.
   destruct (accepts_holder b (self a)); cbn [fst snd]; [|exact Hb].
   rewrite fold_fetch_other; [exact Hb|].
   intros Hin. apply in_map_iff in Hin as [x [Ex Hx]].
-  destruct (wanted_sub b (advert H a) [] x Hx) as (A & _).
+  destruct (wanted_sub b (ranged D b (advert H a)) [] x Hx) as (A & _).
+  apply ranged_sub in A.
   apply (in_map fst) in A. rewrite advert_keys, Ex in A.
   exact (lookup_none_notin k (held a) Ha A).
+Qed.
+
+(* a record beyond the receiver's fetch range is NOT brought over when the list carries two or more
+   (or no) new keys: the range filter applies *)
+Lemma sync_out_of_range_absent H D a b k :
+  lookup k (held b) = None -> in_range D b k = false ->
+  length (unheld b (advert H a)) <> 1%nat ->
+  lookup k (held (sync_from H D a b)) = None.
+Proof.
+  intros Hb Hr Hl. rewrite sync_from_unfold. unfold on_replicate.
+  destruct (accepts_holder b (self a)); cbn [fst snd]; [|exact Hb].
+  rewrite fold_fetch_other; [exact Hb|].
+  intros Hin. apply in_map_iff in Hin as [x [Ex Hx]].
+  destruct (wanted_sub b (ranged D b (advert H a)) [] x Hx) as (A & _).
+  apply (ranged_in_range D b _ x Hl) in A. rewrite Ex in A. congruence.
 Qed.
 
 Lemma fold_fetch_self a : forall l acc, self (fold_left (fetch_fold a) l acc) = self acc.
@@ -342,7 +421,7 @@ Proof.
   destruct m; cbn; try reflexivity. destruct (serve a k); [apply accept_self|reflexivity].
 Qed.
 
-Lemma sync_self H a b : self (sync_from H a b) = self b.
+Lemma sync_self H D a b : self (sync_from H D a b) = self b.
 Proof.
   rewrite sync_from_unfold, fold_fetch_self. unfold on_replicate.
   destruct (accepts_holder b (self a)); reflexivity.
@@ -377,7 +456,7 @@ Proof.
   destruct m; cbn; try exact Hnd. destruct (serve a k); [apply accept_nodup|]; exact Hnd.
 Qed.
 
-Lemma sync_nodup H a b : NoDup (map fst (held b)) -> NoDup (map fst (held (sync_from H a b))).
+Lemma sync_nodup H D a b : NoDup (map fst (held b)) -> NoDup (map fst (held (sync_from H D a b))).
 Proof.
   intros Hnd. rewrite sync_from_unfold. apply fold_fetch_nodup. unfold on_replicate.
   destruct (accepts_holder b (self a)); exact Hnd.
@@ -390,9 +469,9 @@ Qed.
 
 (* ---------------------------------------------------------------- periodic replication *)
 (* one round between two neighbours: a's list reaches b, then b's (new) list reaches a *)
-Definition round (H : content -> N) (ab : node * node) : node * node :=
-  let b' := sync_from H (fst ab) (snd ab) in
-  let a' := sync_from H b' (fst ab) in (a', b').
+Definition round (H : content -> N) (D : peer -> key -> N) (ab : node * node) : node * node :=
+  let b' := sync_from H D (fst ab) (snd ab) in
+  let a' := sync_from H D b' (fst ab) in (a', b').
 
 (* F16, the known class: both hold the key, with different content *)
 Definition KnownOtherVersion (a b : node) : Prop :=
@@ -401,17 +480,22 @@ Definition KnownOtherVersion (a b : node) : Prop :=
 Definition all_valid (n : node) : Prop :=
   forall k c, lookup k (held n) = Some c -> content_valid c = true.
 
-Lemma round_converges H a b :
+(* "in-range neighbour": every record y holds is within x's fetch range *)
+Definition covers (D : peer -> key -> N) (x y : node) : Prop :=
+  forall k c, lookup k (held y) = Some c -> in_range D x k = true.
+
+Lemma round_converges H D a b :
   NoDup (map fst (held a)) -> NoDup (map fst (held b)) ->
   accepts_holder b (self a) = true -> accepts_holder a (self b) = true ->
   inflight a = [] -> inflight b = [] -> all_valid a -> all_valid b ->
+  covers D b a -> covers D a b ->
   ~ KnownOtherVersion a b ->
-  forall k, lookup k (held (fst (round H (a, b)))) = lookup k (held (snd (round H (a, b)))) /\
-            (lookup k (held (snd (round H (a, b)))) =
+  forall k, lookup k (held (fst (round H D (a, b)))) = lookup k (held (snd (round H D (a, b)))) /\
+            (lookup k (held (snd (round H D (a, b)))) =
                match lookup k (held a) with Some c => Some c | None => lookup k (held b) end).
 Proof.
-  intros Na Nb Hab Hba Ia Ib Va Vb Hk k. unfold round. cbn [fst snd].
-  set (b' := sync_from H a b).
+  intros Na Nb Hab Hba Ia Ib Va Vb Cba Cab Hk k. unfold round. cbn [fst snd].
+  set (b' := sync_from H D a b).
   assert (Hacc' : accepts_holder a (self b') = true) by (unfold b'; rewrite sync_self; exact Hba).
   destruct (lookup k (held a)) as [ca|] eqn:Ea.
   - assert (Eb' : lookup k (held b') = Some ca).
@@ -420,7 +504,7 @@ Proof.
         { destruct (content_eq_dec ca cb) as [E|E]; [exact E|].
           exfalso. apply Hk. exists k, ca, cb. auto. }
         subst cb. apply sync_keeps_held. exact Eb.
-      - apply sync_gets_missing; auto. apply (Va k). exact Ea. }
+      - apply sync_gets_missing; auto; [apply (Va k); exact Ea|apply (Cba k ca); exact Ea]. }
     split; [|exact Eb']. rewrite Eb'. apply sync_keeps_held. exact Ea.
   - destruct (lookup k (held b)) as [cb|] eqn:Eb.
     + assert (Eb' : lookup k (held b') = Some cb) by (apply sync_keeps_held; exact Eb).
@@ -428,57 +512,67 @@ Proof.
       apply sync_gets_missing; auto.
       * unfold b'. apply sync_nodup. exact Nb.
       * apply (Vb k). exact Eb.
+      * apply (Cab k cb). exact Eb.
     + assert (Eb' : lookup k (held b') = None) by (apply sync_absent; assumption).
       split; [|exact Eb']. rewrite Eb'. apply sync_absent; assumption.
 Qed.
 
-(* the witness: one register key, two operation sets; H is irrelevant here *)
-Definition f16_a : node := mkNode 0 [(1, CReg 1 [1])] [0; 1] [1] [].
-Definition f16_b : node := mkNode 1 [(1, CReg 1 [2])] [1; 0] [0] [].
+(* the witness: one register key, two operation sets; H and D are irrelevant here (no range set) *)
+Definition f16_a : node := mkNode 0 [(1, CReg 1 [1])] [(1, 1)] [1] [] None None.
+Definition f16_b : node := mkNode 1 [(1, CReg 1 [2])] [(0, 1)] [0] [] None None.
 
-Lemma f16_round H : round H (f16_a, f16_b) = (f16_a, f16_b).
+Lemma f16_round H D : round H D (f16_a, f16_b) = (f16_a, f16_b).
 Proof. reflexivity. Qed.
 
-Lemma f16_never_converges H : forall n, Nat.iter n (round H) (f16_a, f16_b) = (f16_a, f16_b).
+Lemma f16_never_converges H D : forall n, Nat.iter n (round H D) (f16_a, f16_b) = (f16_a, f16_b).
 Proof.
   induction n as [|n IH]; [reflexivity|].
-  change (Nat.iter (S n) (round H) (f16_a, f16_b)) with (round H (Nat.iter n (round H) (f16_a, f16_b))).
+  change (Nat.iter (S n) (round H D) (f16_a, f16_b)) with (round H D (Nat.iter n (round H D) (f16_a, f16_b))).
   rewrite IH. apply f16_round.
 Qed.
 
 Lemma f16_is_known : KnownOtherVersion f16_a f16_b.
 Proof. exists 1, (CReg 1 [1]), (CReg 1 [2]). repeat split; try reflexivity. discriminate. Qed.
 
-Lemma f16_premises :
+Lemma f16_premises D :
   NoDup (map fst (held f16_a)) /\ NoDup (map fst (held f16_b)) /\
   accepts_holder f16_b (self f16_a) = true /\ accepts_holder f16_a (self f16_b) = true /\
-  inflight f16_a = [] /\ inflight f16_b = [] /\ all_valid f16_a /\ all_valid f16_b.
+  inflight f16_a = [] /\ inflight f16_b = [] /\ all_valid f16_a /\ all_valid f16_b /\
+  covers D f16_b f16_a /\ covers D f16_a f16_b.
 Proof.
   repeat split; try reflexivity; try (constructor; [intros []|constructor]).
   - intros k c. cbn. destruct (k =? 1); [intros E; inversion E; reflexivity|discriminate].
   - intros k c. cbn. destruct (k =? 1); [intros E; inversion E; reflexivity|discriminate].
 Qed.
 
+Lemma f16_onrep_b D t : on_replicate D f16_b 0 [(1, t)] = (f16_b, []).
+Proof. unfold on_replicate. replace (accepts_holder f16_b 0) with true by reflexivity. reflexivity. Qed.
+Lemma f16_onrep_a D t : on_replicate D f16_a 1 [(1, t)] = (f16_a, []).
+Proof. unfold on_replicate. replace (accepts_holder f16_a 1) with true by reflexivity. reflexivity. Qed.
+
 (* the same witness at the level of messages: both lists are sent and delivered, nothing is fetched *)
-Example f16_messages H :
+Example f16_messages H D :
   let s0 := mkSys [f16_a; f16_b] [] in
   let ma := Replicate 0 1 0 (advert H f16_a) in
   let mb := Replicate 1 0 1 (advert H f16_b) in
-  run H s0 [OReplicate 0; OReplicate 1; ODeliver ma; ODeliver mb] = s0.
+  run H D s0 [OReplicate 0; OReplicate 1; ODeliver ma; ODeliver mb] = s0.
 Proof.
-  intros s0 ma mb. unfold run, s0, ma, mb. cbn.
-  repeat (unfold kts_eqb, kts_sub, kt_eqb, rtype_eqb; rewrite ?N.eqb_refl; cbn). reflexivity.
+  intros s0 ma mb. unfold run, s0, ma, mb. cbn -[on_replicate].
+  repeat (unfold kts_eqb, kts_sub, kt_eqb, rtype_eqb; rewrite ?N.eqb_refl; cbn -[on_replicate]).
+  rewrite f16_onrep_b. cbn -[on_replicate].
+  repeat (unfold kts_eqb, kts_sub, kt_eqb, rtype_eqb; rewrite ?N.eqb_refl; cbn -[on_replicate]).
+  rewrite f16_onrep_a. reflexivity.
 Qed.
 
 (* non-vacuity of round_converges: two nodes with disjoint stores of every kind end up equal *)
-Definition ex_a : node := mkNode 0 [(1, CChunk 7); (2, CReg 1 [1; 2])] [0; 1] [1] [].
-Definition ex_b : node := mkNode 1 [(3, CPad 5 2 9 true); (4, CTxs [4])] [1; 0] [0] [].
+Definition ex_a : node := mkNode 0 [(1, CChunk 7); (2, CReg 1 [1; 2])] [(1, 1)] [1] [] None None.
+Definition ex_b : node := mkNode 1 [(3, CPad 5 2 9 true); (4, CTxs [4])] [(0, 1)] [0] [] None None.
 
 Example round_converges_example :
   ~ KnownOtherVersion ex_a ex_b /\
-  held (snd (round (fun _ => 0) (ex_a, ex_b))) =
+  held (snd (round (fun _ => 0) (fun _ _ => 0) (ex_a, ex_b))) =
     [(3, CPad 5 2 9 true); (4, CTxs [4]); (1, CChunk 7); (2, CReg 1 [1; 2])] /\
-  held (fst (round (fun _ => 0) (ex_a, ex_b))) =
+  held (fst (round (fun _ => 0) (fun _ _ => 0) (ex_a, ex_b))) =
     [(1, CChunk 7); (2, CReg 1 [1; 2]); (3, CPad 5 2 9 true); (4, CTxs [4])].
 Proof.
   split; [|split; reflexivity].
@@ -486,3 +580,360 @@ Proof.
   destruct (k =? 1) eqn:E1; [apply N.eqb_eq in E1; subst k; cbn in B; discriminate|].
   destruct (k =? 2) eqn:E2; [apply N.eqb_eq in E2; subst k; cbn in B; discriminate|discriminate].
 Qed.
+
+(* ---------------------------------------------------------------- the K closest *)
+Lemma repl_k_value_pinned : KVAL = 20.
+Proof. reflexivity. Qed.
+
+Lemma insert_perm x l : Permutation (insert_by_dist x l) (x :: l).
+Proof.
+  induction l as [|y r IH]; cbn; [apply Permutation_refl|].
+  destruct (snd x <=? snd y); [apply Permutation_refl|].
+  apply perm_trans with (y :: x :: r); [apply perm_skip; exact IH|apply perm_swap].
+Qed.
+
+Lemma sort_perm l : Permutation (sort_by_dist l) l.
+Proof.
+  induction l as [|x r IH]; cbn; [constructor|].
+  apply perm_trans with (x :: sort_by_dist r); [apply insert_perm|apply perm_skip; exact IH].
+Qed.
+
+Definition dle (a b : peer * N) : Prop := snd a <= snd b.
+Definition dlt (a b : peer * N) : Prop := snd a < snd b.
+
+Lemma insert_sorted x l : StronglySorted dle l -> StronglySorted dle (insert_by_dist x l).
+Proof.
+  induction l as [|y r IH]; cbn; intros Hs; [repeat constructor|].
+  inversion Hs as [|a b Hr Hall]; subst.
+  destruct (N.leb_spec (snd x) (snd y)) as [Hle|Hgt].
+  - constructor; [exact Hs|]. constructor; [exact Hle|].
+    apply Forall_forall. intros z Hz. rewrite Forall_forall in Hall. specialize (Hall z Hz).
+    unfold dle in *. lia.
+  - constructor; [apply IH; exact Hr|].
+    apply Forall_forall. intros z Hz.
+    apply (Permutation_in _ (insert_perm x r)) in Hz. destruct Hz as [<-|Hz].
+    + unfold dle. lia.
+    + rewrite Forall_forall in Hall. exact (Hall z Hz).
+Qed.
+
+Lemma sort_sorted l : StronglySorted dle (sort_by_dist l).
+Proof. induction l as [|x r IH]; cbn; [constructor|apply insert_sorted; exact IH]. Qed.
+
+Lemma sorted_strict l : StronglySorted dle l -> NoDup (map snd l) -> StronglySorted dlt l.
+Proof.
+  induction l as [|x r IH]; intros Hs Hnd; [constructor|].
+  inversion Hs as [|a b Hr Hall]; subst. cbn in Hnd. inversion Hnd as [|a b Hnotin Hnd']; subst.
+  constructor; [apply IH; assumption|].
+  apply Forall_forall. intros z Hz. rewrite Forall_forall in Hall. specialize (Hall z Hz).
+  unfold dle, dlt in *. assert (snd x <> snd z).
+  { intros E. apply Hnotin. rewrite E. apply in_map. exact Hz. }
+  lia.
+Qed.
+
+(* in a strictly sorted list the position of an element is the number of strictly nearer ones *)
+Lemma rank_of_nth : forall l i x, StronglySorted dlt l -> nth_error l i = Some x ->
+  length (filter (fun y : peer * N => snd y <? snd x) l) = i.
+Proof.
+  induction l as [|a r IH]; intros i x Hs Hn; [destruct i; discriminate|].
+  inversion Hs as [|a' b Hr Hall]; subst. rewrite Forall_forall in Hall.
+  destruct i as [|j]; cbn in Hn.
+  - inversion Hn; subst x. cbn. rewrite N.ltb_irrefl.
+    assert (E : filter (fun y : peer * N => snd y <? snd a) r = []).
+    { clear -Hall. induction r as [|z r IH]; cbn; [reflexivity|].
+      assert (Hz : dlt a z) by (apply Hall; left; reflexivity). unfold dlt in Hz.
+      destruct (N.ltb_spec (snd z) (snd a)); [lia|]. apply IH. intros y Hy. apply Hall. right. exact Hy. }
+    rewrite E. reflexivity.
+  - assert (Hx : In x r) by (eapply nth_error_In; exact Hn).
+    assert (Hax : dlt a x) by (apply Hall; exact Hx). unfold dlt in Hax.
+    cbn. destruct (N.ltb_spec (snd a) (snd x)); [|lia]. cbn. f_equal. apply IH; assumption.
+Qed.
+
+Lemma filter_length_perm {A} (p : A -> bool) l l' :
+  Permutation l l' -> length (filter p l) = length (filter p l').
+Proof.
+  induction 1; cbn; auto.
+  - destruct (p x); cbn; congruence.
+  - destruct (p x), (p y); reflexivity.
+  - congruence.
+Qed.
+
+Lemma in_firstn_nth {A} : forall m (l : list A) x, In x (firstn m l) -> exists i, (i < m)%nat /\ nth_error l i = Some x.
+Proof.
+  induction m as [|m IH]; intros l x Hin; [destruct Hin|].
+  destruct l as [|a r]; [destruct Hin|]. cbn in Hin. destruct Hin as [<-|Hin].
+  - exists 0%nat. split; [lia|reflexivity].
+  - destruct (IH r x Hin) as (i & Hi & Hn). exists (S i). split; [lia|exact Hn].
+Qed.
+
+Lemma nth_in_firstn {A} : forall m (l : list A) i x, (i < m)%nat -> nth_error l i = Some x -> In x (firstn m l).
+Proof.
+  induction m as [|m IH]; intros l i x Hi Hn; [lia|].
+  destruct l as [|a r]; [destruct i; discriminate|]. destruct i as [|j]; cbn in Hn.
+  - inversion Hn. left. reflexivity.
+  - right. apply (IH r j); [lia|exact Hn].
+Qed.
+
+Lemma nodup_fst_unique (l : list (peer * N)) h d d' :
+  NoDup (map fst l) -> In (h, d) l -> In (h, d') l -> d = d'.
+Proof.
+  induction l as [|x r IH]; intros Hnd H1 H2; [destruct H1|].
+  cbn in Hnd. inversion Hnd as [|a b Hnotin Hnd']; subst.
+  destruct H1 as [E1|H1], H2 as [E2|H2].
+  - congruence.
+  - exfalso. apply Hnotin. subst x. apply (in_map fst) in H2. exact H2.
+  - exfalso. apply Hnotin. subst x. apply (in_map fst) in H1. exact H1.
+  - apply IH; assumption.
+Qed.
+
+(* number of routing-table peers strictly nearer to the node than distance d *)
+Definition nearer (n : node) (d : N) : nat := length (filter (fun y : peer * N => snd y <? d) (table n)).
+
+(* A list is acted on iff its holder is one of the K_VALUE - 1 nearest routing-table peers: a table peer
+   at distance d is accepted exactly when fewer than K_VALUE - 1 table peers are strictly nearer. *)
+Lemma accepts_holder_rank n h d :
+  NoDup (map fst (table n)) -> NoDup (map snd (table n)) ->
+  In (h, d) (table n) -> h <> self n ->
+  (accepts_holder n h = true <-> (nearer n d < N.to_nat KVAL - 1)%nat).
+Proof.
+  intros Hf Hs Hin Hne. unfold nearer.
+  set (S := sort_by_dist (table n)). set (m := (N.to_nat KVAL - 1)%nat).
+  assert (HP : Permutation S (table n)) by apply sort_perm.
+  assert (HS : StronglySorted dlt S).
+  { apply sorted_strict; [apply sort_sorted|].
+    apply (Permutation_NoDup (l := map snd (table n))); [apply Permutation_map, Permutation_sym, HP|exact Hs]. }
+  assert (Hcnt : forall x : peer * N, length (filter (fun y : peer * N => snd y <? snd x) (table n)) = length (filter (fun y : peer * N => snd y <? snd x) S)).
+  { intros x. apply filter_length_perm. apply Permutation_sym. exact HP. }
+  unfold accepts_holder, closest. fold S. fold m.
+  assert (Hns : (h =? self n) = false) by (apply N.eqb_neq; exact Hne).
+  cbn [mem]. rewrite Hns. cbn [orb negb]. rewrite andb_true_r.
+  rewrite mem_true_iff. split.
+  - intros Hm. apply in_map_iff in Hm as [[h' d'] [Eh He]]. cbn in Eh. subst h'.
+    destruct (in_firstn_nth m S (h, d') He) as (i & Hi & Hn).
+    assert (Hin' : In (h, d') (table n)).
+    { apply (Permutation_in _ HP). eapply nth_error_In. exact Hn. }
+    assert (d' = d) by (eapply nodup_fst_unique; eassumption). subst d'.
+    specialize (Hcnt (h, d)). cbn [snd] in Hcnt. rewrite Hcnt.
+    pose proof (rank_of_nth S i (h, d) HS Hn) as Hr. cbn [snd] in Hr. rewrite Hr. exact Hi.
+  - intros Hlt. assert (HinS : In (h, d) S) by (apply (Permutation_in _ (Permutation_sym HP)); exact Hin).
+    destruct (In_nth_error _ _ HinS) as [i Hn].
+    specialize (Hcnt (h, d)). cbn [snd] in Hcnt. rewrite Hcnt in Hlt.
+    pose proof (rank_of_nth S i (h, d) HS Hn) as Hr. cbn [snd] in Hr. rewrite Hr in Hlt.
+    apply in_map_iff. exists (h, d). split; [reflexivity|]. apply (nth_in_firstn m S i); assumption.
+Qed.
+
+(* ... and a holder that is not in the routing table at all (or is the node itself) never is *)
+Lemma accepts_holder_in_table n h : accepts_holder n h = true -> In h (map fst (table n)) /\ h <> self n.
+Proof.
+  unfold accepts_holder, closest. intros Ha. apply andb_prop in Ha as [Hm Hn].
+  apply negb_true_iff, N.eqb_neq in Hn. split; [|exact Hn].
+  cbn [mem] in Hm. apply orb_prop in Hm as [Hm|Hm]; [apply N.eqb_eq in Hm; contradiction|].
+  apply mem_true_iff in Hm. apply in_map_iff in Hm as [x [Ex Hx]].
+  apply in_map_iff. exists x. split; [exact Ex|].
+  apply (Permutation_in _ (sort_perm (table n))).
+  destruct (in_firstn_nth _ _ _ Hx) as (i & _ & Hnth). eapply nth_error_In. exact Hnth.
+Qed.
+
+(* boundary example: K_VALUE + 2 peers at distances 1 .. K_VALUE + 2; the (K_VALUE-1)-th nearest is the last
+   holder acted on, the K_VALUE-th nearest is the first one ignored *)
+Definition kx_table : list (peer * N) :=
+  map (fun i => (100 + N.of_nat i, N.of_nat i)) (rev (seq 1 22)).
+Definition kx_node : node := mkNode 0 [] kx_table [] [] None None.
+
+Example k_closest_boundary_example :
+  length (table kx_node) = 22%nat /\
+  closest kx_node = 0 :: map (fun i => 100 + N.of_nat i) (seq 1 19) /\
+  length (closest kx_node) = N.to_nat KVAL /\
+  nearer kx_node 19 = 18%nat /\ accepts_holder kx_node 119 = true /\
+  nearer kx_node 20 = 19%nat /\ accepts_holder kx_node 120 = false /\
+  accepts_holder kx_node 121 = false /\ accepts_holder kx_node 0 = false /\
+  (forall D, on_replicate D kx_node 119 [(5, TChunk); (6, TChunk)] =
+             (set_inflight kx_node [(5, TChunk); (6, TChunk)], [Fetch 0 119 5; Fetch 0 119 6])) /\
+  (forall D, on_replicate D kx_node 120 [(5, TChunk); (6, TChunk)] = (kx_node, [])).
+Proof. repeat split; try reflexivity. Qed.
+
+(* ---------------------------------------------------------------- the responsible range *)
+Lemma sync_range_assigns n r : store_range n = Some r -> fetch_range (sync_range n) = Some r.
+Proof. intros E. unfold sync_range. rewrite E. reflexivity. Qed.
+
+(* a put re-assigns the fetcher's range from the store's, whatever the fetcher's range was before
+   (in particular a LARGER range replaces a smaller one) *)
+Lemma accept_syncs n k c r :
+  store_range n = Some r -> puts (lookup k (held n)) c = true ->
+  fetch_range (accept n k c) = Some r /\ store_range (accept n k c) = Some r.
+Proof.
+  intros Hs Hp. unfold accept. rewrite Hp. unfold sync_range.
+  destruct (merge_in (lookup k (held n)) c); cbn; rewrite Hs; cbn; split; reflexivity || exact Hs.
+Qed.
+
+Lemma sync_range_store x : store_range (sync_range x) = store_range x.
+Proof. unfold sync_range. destruct (store_range x) eqn:E; cbn; auto. Qed.
+
+Lemma accept_store_range n k c : store_range (accept n k c) = store_range n.
+Proof.
+  unfold accept.
+  destruct (merge_in (lookup k (held n)) c), (puts (lookup k (held n)) c);
+    rewrite ?sync_range_store; reflexivity.
+Qed.
+
+(* without a put nothing is synced: setting the store's range alone leaves the fetcher's as it was *)
+Lemma set_store_range_lags n r :
+  fetch_range (set_store_range n r) = fetch_range n /\ store_range (set_store_range n r) = r.
+Proof. split; reflexivity. Qed.
+
+Lemma on_replicate_ranges D n h keys :
+  fetch_range (fst (on_replicate D n h keys)) = fetch_range n /\
+  store_range (fst (on_replicate D n h keys)) = store_range n.
+Proof. unfold on_replicate. destruct (accepts_holder n h); split; reflexivity. Qed.
+
+(* with no range set in the fetcher, handling a list is the unfiltered `wanted` -- the form the C08 bridge
+   (FetcherBridgeRepl.on_replicate_matches_add_keys_lemma, stated for a fetcher state with range = None) uses *)
+Lemma on_replicate_no_range D n h keys :
+  fetch_range n = None ->
+  on_replicate D n h keys =
+  if accepts_holder n h
+  then (set_inflight n (inflight n ++ wanted n [] keys), map (fun x => Fetch (self n) h (fst x)) (wanted n [] keys))
+  else (n, []).
+Proof. intros Hr. unfold on_replicate. rewrite (ranged_no_range D n keys Hr). reflexivity. Qed.
+
+(* history level: any sequence of range settings followed by a stored record leaves the fetcher with the
+   LAST value set *)
+Lemma get_node_self p l n : get_node p l = Some n -> self n = p.
+Proof.
+  induction l as [|m r IH]; cbn; [discriminate|].
+  destruct (N.eqb_spec (self m) p) as [E|_]; [intros X; injection X as <-; exact E|exact IH].
+Qed.
+
+Lemma get_put_same n' l m : get_node (self n') l = Some m -> get_node (self n') (put_node n' l) = Some n'.
+Proof.
+  induction l as [|x r IH]; cbn; [discriminate|].
+  destruct (N.eqb_spec (self x) (self n')) as [E|Hne]; cbn.
+  - intros _. rewrite N.eqb_refl. reflexivity.
+  - destruct (N.eqb_spec (self x) (self n')); [contradiction|]. exact IH.
+Qed.
+
+Lemma run_app H D s a b : run H D s (a ++ b) = run H D (run H D s a) b.
+Proof. unfold run. apply fold_left_app. Qed.
+
+Lemma run_set_ranges H D p : forall rs s n r,
+  get_node p (nodes s) = Some n ->
+  exists n', get_node p (nodes (run H D s (map (OSetRange p) (rs ++ [r])))) = Some n' /\
+             store_range n' = Some r /\ held n' = held n /\ self n' = p.
+Proof.
+  induction rs as [|r0 rs IH]; intros s n r Hg.
+  - cbn. rewrite Hg. pose proof (get_node_self _ _ _ Hg) as Hs.
+    exists (set_store_range n (Some r)). cbn. repeat split; auto.
+    replace p with (self (set_store_range n (Some r))) by exact Hs.
+    eapply get_put_same. cbn. rewrite Hs. exact Hg.
+  - cbn [app map]. change (run H D s (OSetRange p r0 :: map (OSetRange p) (rs ++ [r])))
+      with (run H D (step H D s (OSetRange p r0)) (map (OSetRange p) (rs ++ [r]))).
+    pose proof (get_node_self _ _ _ Hg) as Hs.
+    assert (Hg' : get_node p (nodes (step H D s (OSetRange p r0))) = Some (set_store_range n (Some r0))).
+    { cbn. rewrite Hg. cbn. replace p with (self (set_store_range n (Some r0))) by exact Hs.
+      eapply get_put_same. cbn. rewrite Hs. exact Hg. }
+    destruct (IH _ _ r Hg') as (n' & A & B & C & E). exists n'. repeat split; auto.
+Qed.
+
+Lemma range_history_last_wins_lemma H D s p n rs r k c :
+  get_node p (nodes s) = Some n -> puts (lookup k (held n)) c = true ->
+  exists n', get_node p (nodes (run H D s (map (OSetRange p) (rs ++ [r]) ++ [OSeed p k c true]))) = Some n' /\
+             fetch_range n' = Some r /\ store_range n' = Some r.
+Proof.
+  intros Hg Hp. rewrite run_app.
+  destruct (run_set_ranges H D p rs s n r Hg) as (n1 & A & B & C & E).
+  set (s1 := run H D s (map (OSetRange p) (rs ++ [r]))) in *.
+  exists (accept n1 k c). cbn. rewrite A. cbn.
+  split.
+  - replace p with (self (accept n1 k c)) by (rewrite accept_self; exact E).
+    eapply get_put_same. rewrite accept_self, E. exact A.
+  - apply accept_syncs; [exact B|rewrite C; exact Hp].
+Qed.
+
+(* every advertised entry whose key is not held and is within the fetcher's range is in flight once the
+   list has been handled -- it already was, or a fetch for it goes out to the advertising holder *)
+Lemma kt_mem_cons x y l :
+  kt_mem x (y :: l) = ((fst x =? fst y) && rtype_eqb (snd x) (snd y)) || kt_mem x l.
+Proof. reflexivity. Qed.
+
+Lemma rtype_eqb_refl t : rtype_eqb t t = true.
+Proof. destruct t; cbn; auto using N.eqb_refl. Qed.
+
+Lemma wanted_covers n : forall keys seen x,
+  In x keys -> lookup (fst x) (held n) = None ->
+  kt_mem x (inflight n) || kt_mem x seen || kt_mem x (wanted n seen keys) = true.
+Proof.
+  induction keys as [|y r IH]; intros seen x Hin Hl; [destruct Hin|].
+  cbn [wanted]. destruct Hin as [->|Hin].
+  - rewrite Hl. cbn [orb].
+    destruct (kt_mem x (inflight n)) eqn:Ei; cbn [orb]; [reflexivity|].
+    destruct (kt_mem x seen) eqn:Es; cbn [orb]; [reflexivity|].
+    rewrite kt_mem_cons, N.eqb_refl, rtype_eqb_refl. reflexivity.
+  - destruct (match lookup (fst y) (held n) with Some _ => true | None => false end
+              || kt_mem y (inflight n) || kt_mem y seen); [apply IH; assumption|].
+    specialize (IH (y :: seen) x Hin Hl). rewrite !kt_mem_cons in *.
+    destruct (kt_mem x (inflight n)); cbn [orb] in *; [reflexivity|].
+    destruct (kt_mem x seen); cbn [orb] in *; [reflexivity|].
+    rewrite orb_false_r in IH. exact IH.
+Qed.
+
+Lemma kt_mem_app x a b : kt_mem x (a ++ b) = kt_mem x a || kt_mem x b.
+Proof. unfold kt_mem. apply existsb_app. Qed.
+
+Lemma kt_mem_in x l : kt_mem x l = true -> exists y, In y l /\ fst y = fst x.
+Proof.
+  unfold kt_mem. intros E. apply existsb_exists in E as [y [Hy Ey]].
+  apply andb_prop in Ey as [Ek _]. apply N.eqb_eq in Ek. exists y. split; [exact Hy|symmetry; exact Ek].
+Qed.
+
+Lemma in_range_is_fetched D n h keys k t :
+  accepts_holder n h = true -> In (k, t) keys -> lookup k (held n) = None -> in_range D n k = true ->
+  kt_mem (k, t) (inflight (fst (on_replicate D n h keys))) = true /\
+  (kt_mem (k, t) (inflight n) = true \/ In (Fetch (self n) h k) (snd (on_replicate D n h keys))).
+Proof.
+  intros Ha Hin Hl Hr. unfold on_replicate. rewrite Ha. cbn [fst snd inflight set_inflight].
+  assert (Hin' : In (k, t) (ranged D n keys)) by (apply ranged_keeps; assumption).
+  pose proof (wanted_covers n (ranged D n keys) [] (k, t) Hin' Hl) as Hc.
+  cbn [kt_mem existsb] in Hc. rewrite orb_false_r in Hc.
+  split; [rewrite kt_mem_app; exact Hc|].
+  apply orb_prop in Hc as [Hc|Hc]; [left; exact Hc|right].
+  apply kt_mem_in in Hc as [y [Hy Ey]]. cbn in Ey.
+  apply in_map_iff. exists y. split; [rewrite Ey; reflexivity|exact Hy].
+Qed.
+
+(* no key beyond the fetcher's range is fetched from a list that does not have exactly one new key *)
+Lemma out_of_range_not_fetched_lemma D n h keys :
+  length (unheld n keys) <> 1%nat ->
+  (forall k, In (Fetch (self n) h k) (snd (on_replicate D n h keys)) -> in_range D n k = true) /\
+  (forall x, In x (inflight (fst (on_replicate D n h keys))) -> In x (inflight n) \/ in_range D n (fst x) = true).
+Proof.
+  intros Hl. unfold on_replicate. destruct (accepts_holder n h); cbn [fst snd inflight set_inflight].
+  - split.
+    + intros k Hin. apply in_map_iff in Hin as [x [Ex Hx]]. inversion Ex; subst k.
+      destruct (wanted_sub n (ranged D n keys) [] x Hx) as (A & _).
+      exact (ranged_in_range D n keys x Hl A).
+    + intros x Hin. apply in_app_or in Hin as [Hin|Hin]; [left; exact Hin|right].
+      destruct (wanted_sub n (ranged D n keys) [] x Hin) as (A & _).
+      exact (ranged_in_range D n keys x Hl A).
+  - split; [intros k []|intros x Hx; left; exact Hx].
+Qed.
+
+(* the regrow scenario: the fetcher was synced at range 5, the store's range then grew to 9 and a record was
+   stored; a list with two new keys at distances 7 and 12 and one at 3: the keys at 3 and 7 are fetched, the
+   one at 12 is not.  Without the second sync (lag) only the key at 3 is. *)
+Definition rg_D (p : peer) (k : key) : N := match k with 1 => 3 | 2 => 7 | 3 => 12 | _ => 100 end.
+Definition rg_node (sr fr : option N) : node := mkNode 1 [] [(0, 1)] [0] [] sr fr.
+Definition rg_keys : list (key * rtype) := [(1, TChunk); (2, TChunk); (3, TChunk)].
+
+Example regrow_example :
+  let n0 := rg_node (Some 9) (Some 5) in
+  let n1 := accept n0 9 (CChunk 1) in
+  fetch_range n1 = Some 9 /\
+  snd (on_replicate rg_D n1 0 rg_keys) = [Fetch 1 0 1; Fetch 1 0 2] /\
+  snd (on_replicate rg_D n0 0 rg_keys) = [Fetch 1 0 1] /\
+  (* shrink again after the regrow *)
+  snd (on_replicate rg_D (accept (set_store_range n1 (Some 4)) 8 (CChunk 2)) 0 rg_keys) = [Fetch 1 0 1] /\
+  (* the single-new-key fast path skips the range check (C08's F15, HEAD behaviour) *)
+  snd (on_replicate rg_D n1 0 [(3, TChunk)]) = [Fetch 1 0 3] /\
+  snd (on_replicate rg_D n1 0 [(9, TChunk); (3, TChunk)]) = [Fetch 1 0 3] /\
+  (* no range at all: everything is fetched *)
+  snd (on_replicate rg_D (rg_node None None) 0 rg_keys) = [Fetch 1 0 1; Fetch 1 0 2; Fetch 1 0 3].
+Proof. repeat split; reflexivity. Qed.
